@@ -273,6 +273,14 @@ func c12Random(c *vk.Ctx, packet bool) bool {
 				if !hd.afterCloseProbe(c, 2) {
 					return false
 				}
+				if hd.sl != nil && r.Intn(2) == 0 {
+					// closing a stream handle again (explicit Close plus a deferred one) changes nothing for
+					// the others. Not done for packet handles: their Close is documented "once, and only once".
+					for k := 0; k <= r.Intn(3); k++ {
+						hd.sl.Close()
+					}
+					c.Count("repeated_closes_of_a_closed_stream_handle", 1)
+				}
 			}
 		}
 		id := nextID(c.Batch)
@@ -862,6 +870,18 @@ func c12Forced(c *vk.Ctx) bool {
 				c.Violation("C12/forced/last-close-never-returns", map[string]any{"kind": kind})
 				return false
 			}
+			// the address is in use by `second`: a further acquisition shares it
+			var third io.Closer
+			if kind == "stream" {
+				third, err = m.ListenStream(addr)
+			} else {
+				third, err = m.ListenPacket(addr)
+			}
+			if err != nil {
+				c.Violation("C12/forced/acquire-of-an-address-in-use-failed", map[string]any{"kind": kind, "err": err.Error(), "history": "handle 1 closed (last close) while handle 2 was acquired; handle 2 open"})
+				return false
+			}
+			third.Close()
 			second.Close()
 			select {
 			case <-errCh: // the reader ends with ErrClosed now
